@@ -199,6 +199,8 @@ def _gen_request(rnd, rid, world, cer_template, universe, fc_owner_pool, big=Fal
                 if same_segment and rnd.random() < 0.6:
                     element["d"] = donor["d"]
     op = {"entry": "deep", "ahb": ahb, "soll": rnd.random() < 0.8}
+    if len(ahb["lines"]) == 1 and rnd.random() < 0.2:
+        op["entry"] = "level"  # validate_segment_level on the only root group
     return {"rid": rid, "start": 0,
             "cer": dict(cer_template, hints={k: f"H{k}@{rid}" for k in hints},
                         packages=dict(cer_template.get("packages") or {}, **extra_packages)), "op": op,
